@@ -48,7 +48,8 @@ MANIFEST = {
 
 PROPS = {
     "C03": ["NotAhead", "BelongsToBlock", "AppendOnlySuccessor", "EqualsHardcoded",
-            "DisputeCommitsHonest", "HonestNotBanned", "HonestNotBannedInFetch", "LiarsBanned"],
+            "DisputeCommitsHonest", "HonestNotBanned", "HonestNotBannedInFetch", "LiarsBanned",
+            "SelfContradictingLiarBanned"],
     # judged only on the CFRace slice, on behalf of the BlockManager family (run_race)
     "C19": ["EventsFollowChainOrder"],
 }
@@ -99,6 +100,7 @@ def core_scenarios(maxh):
         ([T, ("EX", 2), T], 4, 0, 2),           # only the liar answers: the hard-coded checkpoint decides
         ([H, ("HC", 1), H], 3, 2, 0),           # at the tip a liar with a false PrevFilterHeader
         ([H, ("OU", 3), ("OU", 3)], maxh, 3, 0),  # two liars whose filters omit the unparsable output script
+        ([H, ("CP", 4), H], 4, 0, 0),           # false LAST checkpoint, tip exactly on its height (1001 hashes)
     ]
     return S
 
